@@ -31,7 +31,7 @@ def run(ctx):
                 return
             seen.add(key)
             ctx.violation(key, detail, rep)
-    pool = cf.ThreadPoolExecutor(2)
+    pool = cf.ThreadPoolExecutor(3)
     # ------------------------------------------------------------------ (M) in the background
     mcs_cfg = os.path.join(ctx.workdir, "mcsparse.cfg")
     open(mcs_cfg, "w").write("SPECIFICATION Spec\nCONSTANTS B = 2  TrackContent = TRUE  MaxBufs = %d  MaxOld = 3\n"
@@ -43,46 +43,79 @@ def run(ctx):
         wc = os.path.join(ctx.workdir, "wit_%s.cfg" % inv)
         open(wc, "w").write("SPECIFICATION Spec\nCONSTANTS B = 2  TrackContent = TRUE  MaxBufs = 2  MaxOld = 1\nINVARIANTS %s\nCHECK_DEADLOCK FALSE\n" % inv)
         wit[inv] = pool.submit(tlc.run, "MCSparse", cfg=wc, workers=1, timeout=300)
-    # ------------------------------------------------------------------ (R) decode table
-    m = tlc.run("MCCliDecode", workers=1, timeout=300)
-    ctx.add_tlc("MCCliDecode", m, exhaustive=True)
-    if m.violation:
-        viol("model:MCCliDecode:" + m.violation, m.out[-3000:], dict(kind="tlc_counterexample"))
-    table = D.table_from_plans(plans_from_tlc(m.out))
-    if len(table) < 5000:
-        raise MachineryError("MCCliDecode table has only %d rows" % len(table))
-    ctx.log("MCCliDecode:", m.summary(), "table rows", len(table))
-    U.lz()
+    # ------------------------------------------------------------------ (M)+(R) decoding
+    f_cli = pool.submit(tlc.run, "MCCliDecode", workers=2, timeout=900)
     items = D.corpus(ctx, xz, q)
+    ndirected0 = len(items)
+    items += D.directed(ctx, xz, q)
     wd = os.path.join(ctx.workdir, "dec"); os.makedirs(wd)
     base = dict(singleStream=False, force=False, nowarn=False, quiet=0)
-    ncase = [0]
-    def one(args):
-        idx, (name, data) = args
-        r = __import__("random").Random(ctx.seed * 100003 + idx)
-        variants = [("xz_dc", base, "auto", 1), ("xz_dc", base, "auto", 4), ("xz_d", base, "auto", r.choice([1, 4])),
-                    ("xz_t", base, "auto", r.choice([1, 4])), ("xzdec", base, "auto", 1), ("lzmadec", base, "auto", 1)]
-        # one option variant per input
-        o = dict(base); fmt = "auto"
+    import random as _random
+    cases = []
+    def add(idx, tool, src, opt, fmt, th):
+        name, data, _ = items[idx]
+        cases.append(D.make_case(len(cases), idx, name, data, tool, src, opt, fmt, th))
+    for idx, (name, data, fmt) in enumerate(items):
+        r = _random.Random(ctx.seed * 100003 + idx)
+        if idx >= ndirected0:
+            # inputs built for the model's target classes: every tool that reads the format x every source
+            tools = ["xz_dc", "xz_d", "xz_t"] + (["xzdec"] if name.endswith(".xz") else []) + (["lzmadec"] if name.endswith(".lzma") else [])
+            for tool in tools:
+                for src in D.SRCS:
+                    ths = [1, 4] if (tool == "xz_dc" and name.endswith(".xz")) else [r.choice([1, 4])]
+                    for th in ths:
+                        add(idx, tool, src, base, fmt, th)
+            o = dict(base, **r.choice([dict(singleStream=True), dict(nowarn=True), dict(ignoreCheck=True), dict(quiet=r.choice([1, 2]))]))
+            add(idx, r.choice(["xz_dc", "xz_d", "xz_t"]), r.choice(D.SRCS), o, fmt, r.choice([1, 4]))
+            continue
+        add(idx, "xz_dc", "file", base, "auto", 1); add(idx, "xz_dc", r.choice(D.SRCS), base, "auto", 4)
+        add(idx, "xz_d", r.choice(["file", "file", "stdin_file", "stdin_pipe"]), base, "auto", r.choice([1, 4]))
+        add(idx, "xz_t", r.choice(D.SRCS), base, "auto", r.choice([1, 4]))
+        add(idx, "xzdec", r.choice(D.SRCS), base, "auto", 1); add(idx, "lzmadec", r.choice(D.SRCS), base, "auto", 1)
+        o = dict(base); f2 = "auto"
         k = r.randrange(6)
         if k == 0: o["singleStream"] = True
         elif k == 1: o["force"] = True
         elif k == 2: o["nowarn"] = True
         elif k == 3: o["quiet"] = r.choice([1, 2])
         elif k == 4: o["ignoreCheck"] = True
-        else: fmt = {".xz": "xz", ".lzma": "lzma", ".lz": "lzip"}.get(os.path.splitext(name)[1], "auto") if r.random() < 0.7 else r.choice(["xz", "lzma", "lzip"])
-        variants.append((r.choice(["xz_dc", "xz_d", "xz_t"]), o, fmt, r.choice([1, 4])))
+        else: f2 = {".xz": "xz", ".lzma": "lzma", ".lz": "lzip"}.get(os.path.splitext(name)[1], "auto") if r.random() < 0.7 else r.choice(["xz", "lzma", "lzip"])
+        add(idx, r.choice(["xz_dc", "xz_d", "xz_t"]), r.choice(D.SRCS), o, f2, r.choice([1, 4]))
         if not q:
             o2 = dict(base, singleStream=r.random() < 0.5, force=r.random() < 0.5, nowarn=r.random() < 0.5, quiet=r.choice([0, 1, 2]))
-            variants.append((r.choice(["xz_dc", "xz_d", "xz_t"]), o2, "auto", r.choice([1, 4])))
-        D.run_input(ctx, bins, table, wd, idx, name, data, viol, variants)
-        ncase[0] += len(variants)
-    # the library oracle runs in this process (ctypes): keep it single-threaded, the tools are cheap
-    for a in enumerate(items):
-        one(a)
+            add(idx, r.choice(["xz_dc", "xz_d", "xz_t"]), r.choice(D.SRCS), o2, "auto", r.choice([1, 4]))
+    cfile = os.path.join(ctx.workdir, "cases.ndjson")
+    with open(cfile, "w") as f:
+        for c in cases:
+            f.write(json.dumps(dict(id=c["id"], tool=c["tool"], src=c["src"], opt=c["mopt"], lib=c["lib"])) + "\n")
+    g = tlc.run("GenCliDecode", workers=1, timeout=900, env={"C18_CASES": cfile})
+    ctx.add_tlc("GenCliDecode", g, exhaustive=True)
+    preds = {p["id"]: p["r"] for p in plans_from_tlc(g.out)}
+    if len(preds) != len(cases):
+        raise MachineryError("GenCliDecode predicted %d of %d cases\n%s" % (len(preds), len(cases), g.out[-1500:]))
+    tl = [l for l in g.out.splitlines() if l.startswith('<<"TARGETS", "')]
+    if not tl:
+        raise MachineryError("GenCliDecode did not print its targets")
+    targets = json.loads(tl[0][len('<<"TARGETS", "'):-3].encode().decode("unicode_escape"))
+    def one(c):
+        D.run_case(ctx, bins, wd, c, items[c["idx"]][1], preds[c["id"]], viol)
+    with cf.ThreadPoolExecutor(4) as ex:
+        list(ex.map(one, cases))
+    # every target class of the model must have been constructed and executed (valid streams only)
+    hit = set()
+    for c in cases:
+        name, data, fmt = items[c["idx"]]
+        ic = D.input_class(c["idx"], data, c["fmt"])
+        if ic["final"] == "END" and not c["opt"].get("ignoreCheck") and not c["opt"]["singleStream"]:
+            hit.add((c["tool"], c["src"], ic["det"], ic["trailing"], ic["atBoundary"], ic["unsupFirst"], ic["unsupLater"]))
+    missing = [t for t in targets if (t["tool"], t["src"], t["cls"]["det"], t["cls"]["trailing"], t["cls"]["atBoundary"],
+                                      t["cls"]["unsupFirst"], t["cls"]["unsupLater"]) not in hit]
+    if missing:
+        raise MachineryError("%d of %d target classes of GenCliDecode were not executed, e.g. %s" % (len(missing), len(targets), json.dumps(missing[:3])))
     ctx.add_traces(len(items))
-    ctx.sample(dict(kind="decode_input", name=items[5][0], size=len(items[5][1])))
-    ctx.log("decode: %d inputs, %d tool runs compared with the library verdict" % (len(items), ncase[0]))
+    ctx.sample(dict(kind="decode_case", **{k: cases[-3][k] for k in ("name", "tool", "src", "opt", "fmt", "threads", "lib", "retname")}, predicted=preds[cases[-3]["id"]]))
+    ctx.log("decode: %d inputs (%d directed), %d tool runs compared with the library verdict; %d target classes all executed"
+            % (len(items), len(items) - ndirected0, len(cases), len(targets)))
 
     # ------------------------------------------------------------------ (V) sparse output
     gcfg = os.path.join(ctx.workdir, "gensparse.cfg")
@@ -164,6 +197,11 @@ def run(ctx):
     ctx.log("round trip: %d option combinations" % min(ncomb, len(combos)))
 
     # ------------------------------------------------------------------ collect (M)
+    m = f_cli.result()
+    ctx.add_tlc("MCCliDecode", m, exhaustive=True)
+    ctx.log("MCCliDecode:", m.summary())
+    if m.violation:
+        viol("model:MCCliDecode:" + m.violation, m.out[-3000:], dict(kind="tlc_counterexample"))
     r = f_sparse.result()
     ctx.add_tlc("MCSparse(B=2,MaxBufs=%d,MaxOld=3)" % (4 if q else 5), r, exhaustive=True)
     ctx.log("MCSparse:", r.summary())
